@@ -685,6 +685,10 @@ class WBEMSubscriptionManager:
             if name is not None:
                 raise ValueError("For owned destinations, the 'name' "
                                  "parameter must not be specified")
+            if isinstance(destination_id, str) and ':' in destination_id:
+                raise ValueError(
+                    _format("Destination ID contains ':': {0!A}",
+                            destination_id))
         else:  # permanent
             if name is None:
                 raise ValueError("For permanent destinations, 'name' "
